@@ -232,6 +232,10 @@ def run_case(case):
                               counter="read_sync_checked")
                     res.check(np.array_equal(sy[:, 16:], A), "read_sync:nidq-analog",
                               f"thresholded analog lines differ (xa={xa}, {int((sy[:, 16:] != A).sum())} samples)", counter="analog_lines_checked")
+            # an empty selection gives zero rows with the full line count (digital + analog), not an error
+            for sl in (slice(7, 7), slice(ns, ns + 5), slice(5, 2)):
+                sy = sr.read_sync(sl)
+                res.check(sy.shape == (0, 16 + xa), "read_sync:nidq-empty-selection", f"nidq read_sync({sl}): shape {sy.shape}, expected (0, {16 + xa})", counter="nidq_partial_checked")
             # the threshold argument: the analog TTLs swing by 2..3 V above their floor, so any threshold between the noise and the swing gives the
             # same lines, and a threshold above the swing gives silent lines (digital lines never depend on it)
             for thr in (0.4, 1.9, 3.6):
